@@ -72,7 +72,10 @@ EXTENDS Naturals, Integers, FiniteSets, Sequences, TLC
 CONSTANTS Copies,     \* ids of the ImageCopy calls, e.g. {"c1", "c2"}
           Confs,      \* configurations to explore (LayoutGCMC)
           MaxCloses,  \* number of rc.Close calls
-          MaxOps      \* number of other API calls (deletes, pushes)
+          MaxOps,     \* number of other events (deletes, pushes, a failing source request)
+          Eager       \* TRUE: steps of a copy that wait for nothing run before anything else
+                      \* (hand-made partial order reduction for the graph-shape configurations;
+                      \* the lock configurations are explored with every interleaving)
 
 VARIABLES conf, files, idx, hasidx, modRefs, cst, act, need, hit, got, tmpf, fin, rl, closes, ops
 vars == <<conf, files, idx, hasidx, modRefs, cst, act, need, hit, got, tmpf, fin, rl, closes, ops>>
@@ -286,11 +289,11 @@ CopyEnd(c) ==
   /\ UNCHANGED <<conf, files, idx, hasidx, act, need, hit, got, tmpf, fin, rl, closes, ops>>
 
 \* a request to the source fails (counted as one of the MaxOps other events): the error is
-\* returned once the running puts have finished
+\* returned once the running puts have finished (CopyFailDrain)
 SrcPending(c) == \E n \in act[c] : (n \in need[c] /\ n \notin got[c]) \/ (CP(c).refs /\ n \in got[c] /\ n \notin rl[c])
                  \/ \E b \in need[c] : b \notin Mans
 CopyAbort(c) ==
-  /\ cst[c] = "run" /\ conf.faults /\ ops < MaxOps /\ tmpf[c] = {} /\ SrcPending(c)
+  /\ cst[c] = "run" /\ conf.faults /\ ops < MaxOps /\ SrcPending(c)
   /\ ops' = ops + 1
   /\ cst' = [cst EXCEPT ![c] = "fail"]
   /\ UNCHANGED <<conf, files, idx, hasidx, modRefs, act, need, hit, got, tmpf, fin, rl, closes>>
@@ -381,7 +384,10 @@ Calls == \/ \E c \in Copies : CopyBegin(c)
          \/ PushBlobBad
          \/ \E p \in conf.pmans : PushManifest(p)
 
-Next == ~Done /\ (Calls \/ \E c \in Copies : Internal(c) \/ Gated(c))
+AnyInternal == \E c \in Copies : ENABLED Internal(c)
+Next == /\ ~Done
+        /\ IF Eager /\ AnyInternal THEN \E c \in Copies : Internal(c)
+           ELSE Calls \/ \E c \in Copies : Internal(c) \/ Gated(c)
 Spec == Init /\ [][Next]_vars
 
 -----------------------------------------------------------------------------
